@@ -845,3 +845,323 @@ Section Selected.
         * right. destruct Ho as [<-|[<-|[]]]; [reflexivity | rewrite Hop in Hrp; discriminate].
   Qed.
 End Selected.
+
+(** * Part 5 -- T2: where a '?' comes from *)
+
+Lemma card_eqb_eq a b : card_eqb a b = true <-> a = b.
+Proof.
+  destruct a, b; cbn; try (split; congruence).
+  rewrite N.eqb_eq. split; congruence.
+Qed.
+
+Lemma is_plus_eq c : is_plus c = true <-> c = CPlus.
+Proof. destruct c; cbn; split; congruence. Qed.
+
+Lemma relax_card_opt cfg c : relax_card cfg c = COpt -> x_allow_opt cfg = true /\ c = CExact 1.
+Proof.
+  unfold relax_card. destruct (x_allow_opt cfg); cbn; [|discriminate].
+  destruct (card_eqb c (CExact 1)) eqn:E; [|discriminate]. intros _. split; [reflexivity | apply card_eqb_eq; exact E].
+Qed.
+
+Definition class_pd (ce : str * centry) (inv : bool) : pdict :=
+  if inv then c_inverse (snd ce) else c_direct (snd ce).
+
+Lemma class_base_In fa cfg thr counts ce b :
+  In b (class_base fa cfg thr counts ce) <->
+  (s_inv b = true -> x_inverse cfg = true) /\
+  In b (base_statements fa thr (class_cnt counts ce) (s_inv b) (class_pd ce (s_inv b))).
+Proof.
+  unfold class_base. rewrite in_app_iff. split.
+  - intros [H|H].
+    + pose proof (base_statements_card _ _ _ _ _ _ H) as (_ & Hi & _). rewrite Hi. cbn. split; [discriminate | exact H].
+    + destruct (x_inverse cfg) eqn:Ei; [|destruct H].
+      pose proof (base_statements_card _ _ _ _ _ _ H) as (_ & Hi & _). rewrite Hi. cbn. split; [reflexivity | exact H].
+  - intros [Hi H]. destruct (s_inv b); cbn in H.
+    + right. rewrite (Hi eq_refl). exact H.
+    + left. exact H.
+Qed.
+
+Lemma class_selected_dir fa cfg thr counts ce sel v :
+  class_selected fa cfg thr counts ce = inl sel -> In v sel ->
+  exists inv out, select_valid fa cfg (class_cnt counts ce) (class_dir fa cfg thr counts ce inv) = inl out /\ In v out.
+Proof.
+  unfold class_selected.
+  destruct (select_valid fa cfg _ (class_dir fa cfg thr counts ce false)) as [vd|e] eqn:Ed; [|discriminate].
+  destruct (select_valid fa cfg _ (class_dir fa cfg thr counts ce true)) as [vi|e] eqn:Ei; [|discriminate].
+  intros H Hv. inversion H; subst. apply in_app_or in Hv. destruct Hv as [Hv|Hv].
+  - exists false, vd. split; assumption.
+  - exists true, vi. split; assumption.
+Qed.
+
+(** T2 (shexing level) *)
+Theorem relaxed_card_sound fa cfg thr P C shapes :
+  x_keep_less_specific cfg = true -> shex fa cfg thr P C = inl shapes ->
+  (forall ce inv, In ce P -> plus_present (x_tau cfg) (class_dir fa cfg thr C ce inv)) ->
+  forall sh s, In sh shapes -> In s (sh_stmts sh) ->
+    s_card s = COpt -> s_choice s = false -> s_type s <> c_NONLITERAL_ELEM_TYPE ->
+    x_all_compliant cfg = true /\ x_allow_opt cfg = true /\
+    (s_prop s = x_tau cfg \/
+     (x_discard_useless cfg = true /\
+      exists ce a b, In ce P /\ sh_class sh = fst ce /\ sh_n sh = class_cnt C ce /\
+        In a (class_base fa cfg thr C ce) /\ In b (class_base fa cfg thr C ce) /\
+        s_inv a = s_inv s /\ s_inv b = s_inv s /\ s_prop a = s_prop s /\ s_prop b = s_prop s /\
+        s_types a = s_types s /\ s_type b = s_type s /\ s_card a = CExact 1 /\ s_card b = CPlus /\
+        (feqb fa (pv fa (class_cnt C ce) a) (pv fa (class_cnt C ce) b) = true \/
+         feqb fa (pv fa (class_cnt C ce) b) (pv fa (class_cnt C ce) a) = true))).
+Proof.
+  intros Hk H Hpp sh s Hsh Hs Hopt Hch Hty.
+  destruct (shex_stmt_origin _ _ _ _ _ _ _ _ H Hsh Hs) as (ce & sel & v & Hce & Hcl & Hn & _ & Hsel & Hv & Ht).
+  destruct (class_selected_spec _ _ _ _ _ _ Hsel v Hv) as [Hbase _].
+  destruct Ht as (T1 & T2 & T3 & T4 & T5 & [(Hon & Hf & Hc) | (_ & Hc & _)]).
+  2:{ exfalso. rewrite Hopt in Hc. pose proof (gen_card_base cfg _ Hbase) as G. rewrite <- Hc in G. exact G. }
+  rewrite Hopt in Hc. symmetry in Hc. apply relax_card_opt in Hc. destruct Hc as [Hao Hone].
+  split; [exact Hon|]. split; [exact Hao|].
+  destruct (class_selected_dir _ _ _ _ _ _ _ Hsel Hv) as (inv & out & Hout & Hvo).
+  assert (Hchv : s_choice v = false) by congruence.
+  assert (Htyv : s_type v <> c_NONLITERAL_ELEM_TYPE) by (unfold s_type in *; rewrite <- T3; exact Hty).
+  assert (Hnp : is_plus (s_card v) = false) by (rewrite Hone; reflexivity).
+  destruct (selected_not_plus fa cfg _ _ _ _ Hk (Hpp ce inv Hce) Hout Hvo Hchv Htyv Hnp)
+    as [Htau | [Hd (a & b & Ha & Hb & Hcore & Htok & Hbp & _ & Hfe)]].
+  - left. congruence.
+  - right. split; [exact Hd|]. exists ce, a, b.
+    apply class_dir_In in Ha. apply class_dir_In in Hb. destruct Ha as [Ha Hai]. destruct Hb as [Hb Hbi].
+    destruct Hcore as (C1 & C2 & C3 & C4 & C5 & C6 & C7). apply same_tokens_eq in Htok. destruct Htok as [K1 K2].
+    assert (Hinv : s_inv s = inv) by congruence.
+    repeat split; try assumption; try congruence.
+    + unfold s_type in *. rewrite <- K2. unfold s_type. rewrite <- C3, T3. reflexivity.
+    + apply is_plus_eq. exact Hbp.
+Qed.
+
+(** * Part 6 -- T3: the cardinalities hold for every instance *)
+From Shexer Require Import Proofs.FreqLaws.
+
+Lemma filter_all_of_length {A} (f : A -> bool) l :
+  List.length (filter f l) = List.length l -> forall x, In x l -> f x = true.
+Proof.
+  induction l as [|y l IH]; cbn; intros H x Hx; [destruct Hx|].
+  destruct (f y) eqn:E; cbn in H.
+  - destruct Hx as [<-|Hx]; [exact E | apply IH; [lia | exact Hx]].
+  - pose proof (filter_length_le f l). lia.
+Qed.
+
+Lemma filter_length_mono {A} (f g : A -> bool) l :
+  (forall x, f x = true -> g x = true) -> List.length (filter f l) <= List.length (filter g l).
+Proof.
+  intros H. induction l as [|y l IH]; cbn; [lia|].
+  destruct (f y) eqn:Ef.
+  - rewrite (H y Ef). cbn. lia.
+  - destruct (g y); cbn; lia.
+Qed.
+
+Lemma filter_sub_same_length {A} (f g : A -> bool) l :
+  (forall x, f x = true -> g x = true) -> List.length (filter f l) = List.length (filter g l) ->
+  forall x, In x l -> g x = true -> f x = true.
+Proof.
+  intros H. induction l as [|y l IH]; cbn; intros Hlen x Hx Hg; [destruct Hx|].
+  pose proof (filter_length_mono f g l H) as Hm.
+  destruct (f y) eqn:Ef.
+  - rewrite (H y Ef) in Hlen. cbn in Hlen. destruct Hx as [<-|Hx]; [exact Ef | apply IH; [lia | exact Hx | exact Hg]].
+  - destruct (g y) eqn:Eg; cbn in Hlen.
+    + lia.
+    + destruct Hx as [<-|Hx]; [congruence | apply IH; [lia | exact Hx | exact Hg]].
+Qed.
+
+Definition card_holds (c : card) (x : N) : Prop :=
+  match c with
+  | CExact k => x = k
+  | CPlus => (1 <= x)%N
+  | CStar => True
+  | COpt => (x <= 1)%N
+  end.
+
+Section Cards.
+  Variable fa : FreqAlg.
+  Variable okN : N -> Prop.
+  Variable okF : F fa -> Prop.
+  Hypothesis L : FreqLaws fa okN okF.
+  Variable cfg : scfg.
+
+  (** the instances of one class and, per instance, the number of values of
+      property [p] (direction [inv]) that carry type key [k] *)
+  Variable A : Type.
+  Variable insts : list A.
+  Variable cntf : A -> bool -> str -> str -> N.
+
+  Definition n_inst (f : A -> bool) : N := N.of_nat (List.length (filter f insts)).
+
+  (** when an instance with [x] values counts for cardinality key [c]
+      (as Spec/Counts.v's [card_ok] of the profile characterisation) *)
+  Definition ck_ok (p : str) (c : ckey) (x : N) : bool :=
+    (0 <? x)%N &&
+    (if str_eqb p (x_tau cfg) then ckey_eqb c (CKn 1)
+     else match c with CKn m => N.eqb m x | CKplus => true end).
+
+  (** profile well-formedness: every entry holds the number of instances that
+      count for it; an exact entry of an ordinary property has a '+' sibling *)
+  Definition pd_wf (inv : bool) (pd : pdict) : Prop :=
+    (forall p m k cd c n, In (p, m) pd -> In (k, cd) m -> In (c, n) cd ->
+       n = n_inst (fun i => ck_ok p c (cntf i inv p k))) /\
+    (forall p m k cd j n, In (p, m) pd -> In (k, cd) m -> In (CKn j, n) cd -> p <> x_tau cfg ->
+       exists n', In (CKplus, n') cd).
+
+  Variable thr : F fa.
+  Variable counts : ccounts.
+  Variable ce : str * centry.
+  Hypothesis Hthr : okF thr.
+  Hypothesis Hcnt : class_cnt counts ce = N.of_nat (List.length insts).
+  Hypothesis HokN : okN (class_cnt counts ce).
+  Hypothesis Hwf_d : pd_wf false (c_direct (snd ce)).
+  Hypothesis Hwf_i : x_inverse cfg = true -> pd_wf true (c_inverse (snd ce)).
+  (** a node is typed with a class at most once (the graph has no duplicate triple) *)
+  Hypothesis Htau_once : forall i inv k, In i insts -> (cntf i inv (x_tau cfg) k <= 1)%N.
+
+  Let cnt := class_cnt counts ce.
+
+  Lemma n_inst_le f : (n_inst f <= cnt)%N.
+  Proof. unfold n_inst, cnt. rewrite Hcnt. pose proof (filter_length_le f insts). lia. Qed.
+
+  Lemma n_inst_all f : n_inst f = cnt -> forall i, In i insts -> f i = true.
+  Proof.
+    unfold n_inst, cnt. rewrite Hcnt. intros H. apply filter_all_of_length. lia.
+  Qed.
+
+  Lemma class_pd_wf b : In b (class_base fa cfg thr counts ce) -> pd_wf (s_inv b) (class_pd ce (s_inv b)).
+  Proof.
+    intros H. apply class_base_In in H. destruct H as [Hi _]. unfold class_pd.
+    destruct (s_inv b); [apply Hwf_i, Hi; reflexivity | exact Hwf_d].
+  Qed.
+
+  (** a candidate, as a profile entry *)
+  Lemma class_base_entry b :
+    In b (class_base fa cfg thr counts ce) ->
+    exists p k c n m cd,
+      b = mk_base (s_inv b) p k c n /\ In (p, m) (class_pd ce (s_inv b)) /\ In (k, cd) m /\ In (c, n) cd /\
+      fle fa thr (ratio fa n cnt) = true /\
+      n = n_inst (fun i => ck_ok p c (cntf i (s_inv b) p k)).
+  Proof.
+    intros H. pose proof (class_pd_wf b H) as [W1 _].
+    apply class_base_In in H. destruct H as [_ H]. apply base_statements_In in H.
+    destruct H as (p & m & k & cd & c & n & H1 & H2 & H3 & H4 & H5).
+    exists p, k, c, n, m, cd. repeat split; try assumption. eapply W1; eassumption.
+  Qed.
+
+  Lemma plus_present_class inv : plus_present (x_tau cfg) (class_dir fa cfg thr counts ce inv).
+  Proof.
+    intros b Hb Hp Hnp. apply class_dir_In in Hb. destruct Hb as [Hb Hinv].
+    pose proof (class_pd_wf b Hb) as [W1 W2].
+    destruct (class_base_entry b Hb) as (p & k & c & n & m & cd & Eb & H1 & H2 & H3 & H4 & H5).
+    assert (Hpb : s_prop b = p) by (rewrite Eb; reflexivity).
+    destruct c as [j|]; [|rewrite Eb in Hnp; discriminate].
+    assert (Hp' : p <> x_tau cfg) by congruence.
+    destruct (W2 p m k cd j n H1 H2 H3 Hp') as [n' Hn'].
+    pose proof (W1 p m k cd CKplus n' H1 H2 Hn') as En'.
+    set (b' := mk_base (s_inv b) p k CKplus n').
+    assert (Hle : (n <= n')%N).
+    { rewrite H5, En'. unfold n_inst.
+      assert (Hm : List.length (filter (fun i => ck_ok p (CKn j) (cntf i (s_inv b) p k)) insts) <=
+                   List.length (filter (fun i => ck_ok p CKplus (cntf i (s_inv b) p k)) insts)).
+      { apply filter_length_mono.
+        intros i. unfold ck_ok. rewrite !andb_true_iff. intros [Hx _]. split; [exact Hx|].
+        apply str_eqb_neq in Hp'. rewrite Hp'. reflexivity. }
+      lia. }
+    assert (Hpass : fle fa thr (ratio fa n' cnt) = true).
+    { apply (fle_trans _ _ _ L) with (y := ratio fa n cnt); try assumption;
+        try (apply (ratio_wf _ _ _ L); exact HokN).
+      apply (ratio_mono _ _ _ L); assumption. }
+    exists b'. split; [|split].
+    - apply class_dir_In. split; [|cbn; exact Hinv].
+      apply class_base_In. cbn. split.
+      + apply class_base_In in Hb. apply Hb.
+      + apply base_statements_In. exists p, m, k, cd, CKplus, n'. repeat split; assumption.
+    - apply same_tokens_eq. rewrite Eb. cbn. split; reflexivity.
+    - reflexivity.
+  Qed.
+
+  (** T3 for one class *)
+  Theorem class_cardinalities sh :
+    x_keep_less_specific cfg = true -> x_all_compliant cfg = true ->
+    shex_class fa cfg thr counts ce = inl sh ->
+    forall s, In s (sh_stmts sh) -> s_choice s = false -> s_type s <> c_NONLITERAL_ELEM_TYPE ->
+    forall i, In i insts -> card_holds (s_card s) (cntf i (s_inv s) (s_prop s) (s_type s)).
+  Proof.
+    intros Hk Hon Hc s Hs Hch Hty i Hi.
+    rewrite shex_class_eq in Hc.
+    destruct (class_selected fa cfg thr counts ce) as [sel|e] eqn:Esel; [|discriminate].
+    destruct (tune fa cfg (class_cnt counts ce) sel) as [stmts|e] eqn:Et; [|discriminate].
+    inversion Hc; subst sh; cbn in Hs. clear Hc.
+    destruct (tune_spec _ _ _ _ _ Et s Hs) as [v [Hv Ht]].
+    destruct (class_selected_spec _ _ _ _ _ _ Esel v Hv) as [Hbase [inv0 Hfrom]].
+    destruct Ht as (T1 & T2 & T3 & T4 & T5 & Hcase).
+    assert (Hchv : s_choice v = false) by congruence.
+    assert (Htyv : s_type v <> c_NONLITERAL_ELEM_TYPE) by (unfold s_type in *; rewrite <- T3; exact Hty).
+    destruct (Hfrom Hchv Htyv) as [b [Hb Hcore]].
+    apply class_dir_In in Hb. destruct Hb as [Hb _].
+    destruct (class_base_entry b Hb) as (p & k & c & n & m & cd & Eb & H1 & H2 & H3 & H4 & H5).
+    destruct Hcore as (C1 & C2 & C3 & C4 & C5 & C6 & C7).
+    assert (Einv : s_inv s = s_inv b) by congruence.
+    assert (Ep : s_prop s = p) by (rewrite T2, C2, Eb; reflexivity).
+    assert (Ek : s_type s = k) by (unfold s_type; rewrite T3, C3, Eb; reflexivity).
+    assert (Ecv : s_card v = card_of_key c) by (rewrite C5, Eb; reflexivity).
+    rewrite Einv, Ep, Ek.
+    destruct Hcase as [(_ & Hf & Hc) | ([Hoff | Hf] & Hc & _)]; [| congruence |].
+    - (* relaxed *)
+      rewrite Hc. unfold relax_card. destruct (x_allow_opt cfg && card_eqb (s_card v) (CExact 1)) eqn:Er; [|exact I].
+      apply andb_true_iff in Er. destruct Er as [_ Er]. apply card_eqb_eq in Er. cbn.
+      destruct (str_eq_dec p (x_tau cfg)) as [Etau | Entau]; [rewrite Etau; apply Htau_once; exact Hi|].
+      destruct (class_selected_dir _ _ _ _ _ _ _ Esel Hv) as (inv & out & Hout & Hvo).
+      assert (Hnp : is_plus (s_card v) = false) by (rewrite Er; reflexivity).
+      destruct (selected_not_plus fa cfg _ _ _ _ Hk (plus_present_class inv) Hout Hvo Hchv Htyv Hnp)
+        as [Htau | [_ (a' & b' & Ha' & Hb' & Hcore' & Htok & Hbp & _ & Hfe)]]; [congruence|].
+      apply class_dir_In in Ha'. apply class_dir_In in Hb'. destruct Ha' as [Ha' Hai]. destruct Hb' as [Hb' Hbi].
+      destruct (class_base_entry a' Ha') as (p1 & k1 & c1 & n1 & m1 & cd1 & Ea & _ & _ & _ & _ & N1).
+      destruct (class_base_entry b' Hb') as (p2 & k2 & c2 & n2 & m2 & cd2 & Eb' & _ & _ & _ & _ & N2).
+      destruct Hcore' as (D1 & D2 & D3 & D4 & D5 & D6 & D7).
+      apply same_tokens_eq in Htok. destruct Htok as [K1 K2].
+      assert (Ep1 : p1 = p) by (rewrite Ea in D2; cbn in D2; congruence).
+      assert (Ek1 : k1 = k) by (rewrite Ea in D3; cbn in D3; rewrite C3, Eb in D3; cbn in D3; congruence).
+      assert (Ep2 : p2 = p) by (rewrite Ea, Eb' in K1; cbn in K1; congruence).
+      assert (Ek2 : k2 = k) by (rewrite Ea, Eb' in K2; cbn in K2; congruence).
+      assert (Ec1 : c1 = CKn 1).
+      { rewrite Ea in D5. cbn in D5. rewrite Er in D5. destruct c1; cbn in D5; congruence. }
+      assert (Ec2 : c2 = CKplus).
+      { rewrite Eb' in Hbp. cbn in Hbp. destruct c2; cbn in Hbp; [discriminate | reflexivity]. }
+      assert (Eia : s_inv a' = s_inv b) by congruence.
+      assert (Eib : s_inv b' = s_inv b) by congruence.
+      subst p1 k1 p2 k2 c1 c2. rewrite Eia in N1. rewrite Eib in N2.
+      assert (Pa : pv fa cnt a' = ratio fa n1 cnt) by (rewrite Ea; reflexivity).
+      assert (Pb : pv fa cnt b' = ratio fa n2 cnt) by (rewrite Eb'; reflexivity).
+      fold cnt in Hfe. rewrite Pa, Pb in Hfe.
+      assert (En : n1 = n2).
+      { destruct Hfe as [Hfe|Hfe]; apply (ratio_feqb_iff fa okN okF L) in Hfe;
+          try exact HokN; try (subst; apply n_inst_le); congruence. }
+      rewrite N1, N2 in En. unfold n_inst in En. apply Nat2N.inj in En.
+      set (x := cntf i (s_inv b) p k).
+      destruct (N.ltb 0 x) eqn:Ex; [|apply N.ltb_ge in Ex; lia].
+      assert (Hg : ck_ok p CKplus x = true).
+      { unfold ck_ok. rewrite Ex. apply str_eqb_neq in Entau. rewrite Entau. reflexivity. }
+      pose proof (filter_sub_same_length
+                    (fun i => ck_ok p (CKn 1) (cntf i (s_inv b) p k))
+                    (fun i => ck_ok p CKplus (cntf i (s_inv b) p k)) insts) as Hsub.
+      assert (Hf1 : ck_ok p (CKn 1) x = true).
+      { apply Hsub; try assumption. intros y. unfold ck_ok. rewrite !andb_true_iff. intros [Hy _].
+        split; [exact Hy|]. apply str_eqb_neq in Entau. rewrite Entau. reflexivity. }
+      unfold ck_ok in Hf1. apply andb_true_iff in Hf1. destruct Hf1 as [_ Hf1].
+      apply str_eqb_neq in Entau. rewrite Entau in Hf1. apply N.eqb_eq in Hf1. lia.
+    - (* not relaxed: the candidate's count is the class size *)
+      assert (Pv : pv fa (class_cnt counts ce) v = ratio fa n cnt).
+      { unfold pv. rewrite C7, Eb. reflexivity. }
+      rewrite Pv in Hf. apply (ratio_one _ _ _ L) in Hf; [|exact HokN | rewrite H5; apply n_inst_le].
+      rewrite H5 in Hf. pose proof (n_inst_all _ Hf i Hi) as Hok. cbn in Hok.
+      unfold ck_ok in Hok. apply andb_true_iff in Hok. destruct Hok as [Hpos Hok]. apply N.ltb_lt in Hpos.
+      rewrite Hc, Ecv. unfold gen_card.
+      destruct (str_eqb p (x_tau cfg)) eqn:Etau.
+      + apply str_eqb_eq in Etau. destruct c as [j|]; cbn in Hok; [|discriminate].
+        apply N.eqb_eq in Hok. subst j. cbn.
+        assert (Hle : (cntf i (s_inv b) p k <= 1)%N) by (rewrite Etau; apply Htau_once; exact Hi).
+        destruct (x_disable_exact cfg); cbn; lia.
+      + destruct c as [j|]; cbn.
+        * apply N.eqb_eq in Hok. subst j. destruct (x_disable_exact cfg); cbn; [|reflexivity].
+          destruct (N.ltb 1 _) eqn:E1; cbn; [lia | reflexivity].
+        * destruct (x_disable_exact cfg); cbn; lia.
+  Qed.
+End Cards.
